@@ -86,6 +86,8 @@ class AttributeCollection(MutableMapping[int, Attribute]):
     cached: ClassVar[AttributeCollection | None] = None
     # previously parsed attribute, from which cached was made of
     previous: ClassVar[Buffer] = b''
+    # what the cached parse read from the session it was made on
+    previous_context: ClassVar[tuple[bool, bool] | None] = None
 
     representation: ClassVar[dict[int, tuple[str, str, str | tuple[str, ...], str, str]]] = {
         # key:  (how, default, name, text_presentation, json_presentation),
@@ -356,7 +358,11 @@ class AttributeCollection(MutableMapping[int, Attribute]):
 
     @classmethod
     def unpack(cls, data: Buffer, negotiated: Negotiated) -> AttributeCollection:
-        if cls.cached and data == cls.previous:
+        # The same bytes do not parse the same on every session: AS_PATH and AGGREGATOR are read
+        # with negotiated.asn4, AIGP is accepted or discarded with negotiated.aigp. The cache is
+        # shared by all sessions of the process, so what the parse depended on is part of the key.
+        context = (bool(negotiated.asn4), bool(negotiated.aigp))
+        if cls.cached and data == cls.previous and context == cls.previous_context:
             return cls.cached
 
         attributes = cls().parse(data, negotiated)
@@ -369,9 +375,11 @@ class AttributeCollection(MutableMapping[int, Attribute]):
 
         if Attribute.CODE.MP_REACH_NLRI not in attributes and Attribute.CODE.MP_UNREACH_NLRI not in attributes:
             cls.previous = data
+            cls.previous_context = context
             cls.cached = attributes
         else:
             cls.previous = b''
+            cls.previous_context = None
             cls.cached = None
 
         return attributes
